@@ -9,5 +9,10 @@ for g in $(ls checks); do
   .build/ovgen -group $g -out $(pwd)/$B >/dev/null || exit 1
   if [ -x checks/$g/pregen.sh ]; then checks/$g/pregen.sh "$(pwd)/$B" || exit 1; fi
   go build -tags verif -overlay $B/overlay.json -o $B/check ./checks/$g || exit 1
+  # warm the -race build (race-detector supplement, engine/racepass.go) so that no check pays for it in its own time
+  case $g in
+    txn|crypto|codec|pure) go build -race -tags verif -overlay $B/overlay.json -o $B/racepass ./checks/racepass || exit 1 ;;
+    peers|wsvc)            go build -race -tags verif -overlay $B/overlay.json -o $B/racepass ./checks/racepass/$g || exit 1 ;;
+  esac
 done
 echo setup ok
